@@ -116,10 +116,17 @@ def _run_case(case, ctx):
         k1, k2 = rs.choice(len(KINDS), size=2, replace=False)
         k1, k2 = KINDS[k1], KINDS[k2]
         m = int(rs.randint(order))
-        form = gen.choice(rs, ["dict-dict", "scalar-dict", "scalar-scalar", "list-dict"])
+        form = gen.choice(rs, ["dict-dict", "scalar-dict", "scalar-scalar", "list-dict", "dict-dict-key-from-the-end", "list-dict-key-from-the-end"])
         p1, p2 = param_for(rs, k1, X.shape, R), param_for(rs, k2, X.shape, R)
         if form == "dict-dict":
             kw = {k1: {m: p1}, k2: {m: p2, (m + 1) % order: p2}}
+        elif form == "dict-dict-key-from-the-end":
+            # the same mode named once from the start and once from the end (both spellings are accepted as keys)
+            kw = {k1: {m: p1}, k2: {m - order: p2}}
+        elif form == "list-dict-key-from-the-end":
+            lst = [None] * order
+            lst[m] = p1
+            kw = {k1: lst, k2: {m - order: p2}}
         elif form == "scalar-dict":
             kw = {k1: p1, k2: {m: p2}}
         elif form == "scalar-scalar":
